@@ -806,8 +806,8 @@ def classify_typed_equality(v, mod, sym):
     return None
 
 
-def r8_program_identity(ctx, sym):
-    ctx.rule('R8', "the tree the ensure_*/prevent_* checks walk is the tree of the code asked for: reparse_if_needed "
+def r8_program_identity(ctx, sym, rule='R8', entry='parse_program'):
+    ctx.rule(rule, "the tree the ensure_*/prevent_* checks and find_matches walk is the tree of the code asked for: reparse_if_needed "
                    "(decision table by abstract interpretation over call sequences with and without explicit "
                    "student_code, cached or not) leaves cait['ast'] bound to the parse of the requested code")
     mod = ctx.repo.module('pedal.cait.cait_api')
@@ -857,7 +857,7 @@ def r8_program_identity(ctx, sym):
                     ok = got is cait and bool(cait['success']) and isinstance(tree, tuple) and tree[0] == 'cait' \
                         and tree[1][1] == want_code
                 key = 'reparse_if_needed[%s,source_ok=%s]@%d' % (','.join(str(c) for c in seq), source_ok, i)
-                ctx.check(ok, 'R8', key, mod, fn,
+                ctx.check(ok, rule, key, mod, fn,
                           "after the calls %s the static checks are handed the tree %r with success=%r%s; expected %s" % (
                               seq[:i + 1], tree, cait.get('success'), '' if raised is None else ' (raises %s)' %
                               raised.kind, 'success=False' if code == 'BAD' else 'the parse of %r with success=True' %
@@ -866,9 +866,9 @@ def r8_program_identity(ctx, sym):
                           "the check counts nodes of the reference solution", construct='reparse_if_needed')
                 if not ok:
                     break
-    pp = mod.func('parse_program')
+    pp = mod.func(entry)
     ok = any(call_name(c) == 'reparse_if_needed' for c in calls(pp))
-    ctx.check(ok, 'R8', 'parse_program:uses-reparse', mod, pp, "parse_program no longer goes through reparse_if_needed",
+    ctx.check(ok, rule, '%s:uses-reparse' % entry, mod, pp, "%s no longer goes through reparse_if_needed" % entry,
               "static checks see a stale tree")
 
 
